@@ -107,7 +107,7 @@ def node_st(draw, depth, state):
         return {'k': 'rep', 'factor': draw(st.sampled_from([0, 1, 2, 2, 3, 4])), 'body': body, 'bracket': True}
     if k == 2:
         leaf = draw(leaf_st(False))
-        if leaf['k'] in ('tok', 'gol', 'pad') and leaf.get('place', 'pos') == 'pos':
+        if (leaf['k'] in ('tok', 'gol', 'pad') and leaf.get('place', 'pos') == 'pos') or leaf['k'] == 'struct':
             return {'k': 'rep', 'factor': draw(st.sampled_from([0, 1, 2, 3, 4])), 'body': [leaf], 'bracket': False}
         return leaf
     if depth > 0 and k == 3:
